@@ -68,6 +68,12 @@ def build_go(binname, race=False):
             cmd.append("-race")
         cmd.append("./cmd/" + binname)
         p = subprocess.run(cmd, cwd=REPO, env=goenv(), capture_output=True, text=True)
+        # -mod=mod lets the go command rewrite go.mod / go.sum when an injected file imports a module the repository only
+        # requires indirectly: that would edit /repo.  Detect it, undo it, and report the harness as broken.
+        d = subprocess.run(["git", "diff", "--quiet", "HEAD", "--", "go.mod", "go.sum"], cwd=REPO)
+        if d.returncode != 0 and os.environ.get("VERIF_ALLOW_GOMOD") is None:
+            subprocess.run(["git", "checkout", "HEAD", "--", "go.mod", "go.sum"], cwd=REPO)
+            return False, "the harness build rewrote /repo/go.mod or go.sum (an injected file imports an indirect dependency); restored\n" + p.stdout + p.stderr, out
         return p.returncode == 0, (p.stdout + p.stderr), out
 
 
